@@ -122,12 +122,15 @@ def generate(seed, scratch, nvariants=3, hashseeds=None):
             p = os.path.join(world["root"], d, name) if d else os.path.join(world["root"], name)
             files[p] = copy.deepcopy(files[src])
             files[p]["copy_of"] = src
+    if ndup and rs.random() < 0.3:
+        world["hardlink_copies"] = True      # the copies are hard links: several names of one inode
     for j in range(rs.randint(0, 3)):
         files[os.path.join(world["root"], rs.choice(["d1", "d2", "sub"]), f"u{j}.c")] = {
             "lang": "c", "items": [["code", rs.randint(1, 3)]]}
-    if rs.random() < 0.06:
+    if rs.random() < 0.08:
         # large generated tables vendored in two revisions (identical for the first 64 KiB and more), two copies each
-        pad = "".join(f"// row {k:06d} 0123456789abcdef0123456789abcdef\n" for k in range(1700))
+        # (sometimes beyond 1 MiB, where tools start to treat files differently: chunked reads, worker threads)
+        pad = "".join(f"// row {k:06d} 0123456789abcdef0123456789abcdef\n" for k in range(rs.choice([1700, 23000])))
         for rev in ("1", "2"):
             for where in ("d1", "d2/inc"):
                 files[os.path.join(world["root"], where, f"table_r{rev}.h")] = {"lang": "c", "text": pad + f"int table_rev{rev};\n"}
@@ -187,6 +190,8 @@ def observe(world, top, sched_v, clustering):
         native = False
         if key is None:
             key = "name"
+    # completion order of any worker pool the code may use: decided by the schedule as well
+    pool_key = key if not native else "native-%s-%s" % (hs, sched_v.get("platform_order"))
     root = os.path.join(top, world["root"])
     excl = world.get("excludes", [])
     obs = {}
@@ -194,7 +199,7 @@ def observe(world, top, sched_v, clustering):
     api = runners.run_fresh("api_run", core.api_spec(
         world, top, analyses=[{"platforms": core.plat_specs(world, top, order=porder), "excludes": excl,
                                "metrics": True}],
-        scandir_key=None if native else key), hashseed=hs)
+        scandir_key=None if native else key, pool_key=pool_key), hashseed=hs)
     o = api["obs"][0]
     obs["api_exc"] = o["exc"]
     obs["attr"] = o.get("attr")
@@ -203,16 +208,18 @@ def observe(world, top, sched_v, clustering):
     obs["members"] = sorted(o.get("members") or [])
     obs["members_order"] = o.get("members")
     obs["scandir_nonidentity"] = api["seam_stats"]["scandir_nonidentity"]
+    obs["pool_tasks"] = api["seam_stats"].get("pool_tasks", 0)
     af = os.path.join(top, W.analysis_path(world))
     reports = ["-R", "summary", "-R", "duplicates"] + (["-R", "clustering"] if clustering else [])
     c = runners.run_fresh("cli_run", {"top": top, "cwd": root, "module": "codebasin", "argv": reports + [af],
-                                      "scandir_key": None if native else key}, hashseed=hs)
+                                      "scandir_key": None if native else key, "pool_key": pool_key}, hashseed=hs)
     obs["codebasin_rc"] = c["rc"]
+    obs["pool_tasks"] += (c.get("seam_stats") or {}).get("pool_tasks", 0)
     obs["codebasin_head"], obs["dup_groups_listed"] = split_codebasin(c["out"])
     obs["dup_groups"] = sorted(sorted(g) for g in obs["dup_groups_listed"])
     for name, extra in (("tree", []), ("tree_prune", ["--prune"]), ("tree_L2", ["-L", "2"])):
         t = runners.run_fresh("cli_run", {"top": top, "cwd": root, "module": "codebasin.tree", "argv": extra + [af],
-                                          "scandir_key": None if native else key}, hashseed=hs)
+                                          "scandir_key": None if native else key, "pool_key": pool_key}, hashseed=hs)
         obs[name] = t["out"]
         obs[name + "_rc"] = t["rc"]
     if world["platforms"]:
@@ -220,7 +227,7 @@ def observe(world, top, sched_v, clustering):
         cv = runners.run_fresh("cli_run", {"top": top, "cwd": root, "module": "codebasin.coverage",
                                            "argv": ["compute", "-S", root, "-o", os.path.join(top, "cov.json"),
                                                     os.path.join(top, p0["db"])],
-                                           "scandir_key": None if native else key, "keep": []}, hashseed=hs)
+                                           "scandir_key": None if native else key, "pool_key": pool_key, "keep": []}, hashseed=hs)
         obs["cov_rc"] = cv["rc"]
         cp = os.path.join(top, "cov.json")
         if os.path.exists(cp):
@@ -315,6 +322,8 @@ def execute(case, scratch):
             stats["variants"] += 1
             stats["cli_runs"] += 4
             orders.add(var["set_order"])
+            # tasks the code handed to a (simulated) worker pool: 0 unless the tree under test has one
+            pr["worker_pool_tasks"] = pr.get("worker_pool_tasks", 0) + var.get("pool_tasks", 0)
             f = stats["faults"]
             f["hash_seed"] = f.get("hash_seed", 0) + 1
             if v.get("native_order"):
